@@ -131,6 +131,18 @@ func (e *SpecEnv) lookupType(name string) types.Type {
 		}
 		return types.NewSlice(t)
 	}
+	if strings.HasPrefix(name, "[") && !strings.HasPrefix(name, "[]") {
+		// array type [N]T
+		if j := strings.Index(name, "]"); j > 0 {
+			var n int64
+			if _, err := fmt.Sscanf(name[1:j], "%d", &n); err == nil {
+				if t := e.lookupType(name[j+1:]); t != nil {
+					return types.NewArray(t, n)
+				}
+			}
+		}
+		return nil
+	}
 	if strings.HasPrefix(name, "map[") {
 		cl := matchBracket(name, 3)
 		k := e.lookupType(name[4:cl])
@@ -347,6 +359,15 @@ func (e *SpecEnv) eval(x ast.Expr) *Val {
 		i := e.eval(x.Index)
 		return e.index(v, i)
 	case *ast.SliceExpr:
+		// a[:] of an addressable array: the slice over the whole array, as go/ssa's Slice of a *[N]T
+		if x.Low == nil && x.High == nil && x.Max == nil {
+			if pl := e.placeExprQuiet2(x.X); pl != nil && !pl.Elem && len(pl.Path) == 0 {
+				if at, ok := types.Unalias(pl.typ()).Underlying().(*types.Array); ok {
+					n := fmt.Sprint(at.Len())
+					return &Val{T: types.NewSlice(at.Elem()), S: fmt.Sprintf("(mk_Slice %s 0 %s %s)", pl.Base, n, n)}
+				}
+			}
+		}
 		v := e.eval(x.X)
 		lo := "0"
 		hi := app("sl_len", v.S)
@@ -361,6 +382,14 @@ func (e *SpecEnv) eval(x ast.Expr) *Val {
 		return e.call(x)
 	}
 	return e.fail("unsupported spec expression %T", x)
+}
+
+// placeExprQuiet2: like placeExpr, for identifiers only, without recording an error.
+func (e *SpecEnv) placeExprQuiet2(x ast.Expr) *Place {
+	if _, ok := x.(*ast.Ident); ok {
+		return e.placeExpr(x)
+	}
+	return nil
 }
 
 func derefStruct(t types.Type) (*types.Struct, types.Type, bool) {
@@ -469,6 +498,18 @@ func (e *SpecEnv) binary(x *ast.BinaryExpr) *Val {
 				rs = e.fr.u.S.fresh("nores", so)
 			}
 		}
+		// an interface value compared with a concrete one: box the concrete side as MakeInterface does
+		box := func(iface, conc *Val, cs string, cx ast.Expr) string {
+			if iface.T == nil || conc.T == nil || isNilLit(cx) || !types.IsInterface(iface.T) || types.IsInterface(conc.T) || conc.Math {
+				return cs
+			}
+			if b, ok := conc.T.(*types.Basic); ok && b.Info()&types.IsUntyped != 0 {
+				return cs
+			}
+			fn := e.fr.u.S.boxFun(mangle(shortTypeName(conc.T)), e.fr.u.S.sortOf(conc.T))
+			return app(fn, cs)
+		}
+		ls, rs = box(r, l, ls, x.X), box(l, r, rs, x.Y)
 		// nil comparisons on slices compare the backing array
 		if isNilLit(x.Y) && e.sortOfVal(l) == "Slice" {
 			ls, rs = app("sl_arr", ls), "0"
